@@ -21,6 +21,15 @@ Streams
            time (distinct ids), make requests of theirs raise inside the surviving helper (first / only
            stateful request: _test_raise_error(ValueError), or the wrapper's `raises` fault), drop them and
            go on.
+           "The helper raises": the class of the exception is part of the fault (raises: Exception subclasses,
+           reported back by Listener.listen and re-raised by design; raises_fatal: SystemExit with every kind
+           of argument, KeyboardInterrupt, GeneratorExit, asyncio.CancelledError, a BaseException subclass of
+           our own, BaseException: the helper must die and the query may only fail with InternalError).  One
+           case per fatal class in every run.  The same faults through the public API (`mods` cases): a project
+           with sourceless modules (load_unsafe_extensions=True), one of which calls sys.exit() / raises a
+           non-Exception / os._exit()s / SIGKILLs itself / closes fd 0 or 1 / writes half a reply and exits /
+           raises an ordinary Exception while the helper imports it; complete/infer/goto/get_signatures/help
+           on it, 1..3 consecutive times, queries on a harmless sourceless module before and after.
   churn    many Scripts created and dropped on one helper: helper-side live states subset of live Scripts.
 """
 import gc
@@ -52,7 +61,12 @@ MANIFEST = dict(
          '(states_owned_or_queued), hence after one further served request nothing is left of a dropped Script '
          'whatever the outcomes of its requests were (discarded_states_released, over the position of '
          '`self._used = True` relative to run() read from the source); kernel-checked counter-witnesses for the '
-         'mark moved behind run() (leaked state, stale state reused after id() reuse). Tie: translator (except clauses, _kill, '
+         'mark moved behind run() (leaked state, stale state reused after id() reuse); "the helper raises" is '
+         'modelled over the except clause of Listener.listen read from the source (listenFault): the clause catches '
+         'no class that is not an Exception (listen_catches_only_exceptions), hence a SystemExit / KeyboardInterrupt / '
+         'GeneratorExit / CancelledError / own BaseException raised while a request is served ends in InternalError, a '
+         'crashed and reaped helper (helper_raise_fatal_contained_partial); kernel-checked counter-witness for '
+         '`except (Exception, SystemExit)` (SystemExit re-raised in the user\'s process). Tie: translator (except clauses, _kill, '
          '__del__ guard and body, _used writes, run() flush loop, replacement test, close-loop shape) + trace '
          'correspondence (incl. open pipe count and helper-side inference states per helper after every '
          'operation) through a fault-injecting stand-in for the environment executable and '
@@ -1262,11 +1276,14 @@ def run(ctx):
         results = run_cases(cases, jobs=ctx.size(12, 16))
         # "no query hangs" is judged on an otherwise idle harness: a case that ran into the alarm while
         # 12 workers (and whatever else the machine is doing) compete for the CPUs is run again, alone
-        for i, (c, r) in enumerate(zip(cases, results)):
-            if 'infra' not in r and any(q.get('cls') == 'HANG' for q in r['queries']):
-                ctx.notes.append('case %s hit the %d s alarm in the parallel run; re-run alone with %d s'
-                                 % (c['id'], HANG_AFTER, RETRY_HANG_AFTER))
-                results[i] = run_cases([dict(c, timeout=RETRY_HANG_AFTER)], 1)[0]
+        hung = [i for i, r in enumerate(results)
+                if 'infra' not in r and any(q.get('cls') == 'HANG' for q in r['queries'])]
+        if hung:
+            ctx.notes.append('cases %s hit the %d s alarm in the parallel run; re-run (3 at a time) with %d s'
+                             % ([cases[i]['id'] for i in hung], HANG_AFTER, RETRY_HANG_AFTER))
+            again = run_cases([dict(cases[i], timeout=RETRY_HANG_AFTER) for i in hung], 3)
+            for i, r in zip(hung, again):
+                results[i] = r
         churn = churn_async.get(timeout=600)
     ctx.notes.append('C14: %d cases on the real code in %.1f s' % (len(cases), time.time() - t0))
     reqs = []
@@ -1376,7 +1393,7 @@ def replay(ctx, payload):
         case['prog'] = []
         for st in inp['prog']:
             st = dict(st)
-            src = st.pop('src', None)
+            src = st.pop('src', None) if st.get('do') != 'mq' else None
             if src is not None:
                 st['q'] = SCEN.index(tuple(src)) if tuple(src) in SCEN else 0
             case['prog'].append(st)
